@@ -59,12 +59,24 @@ Definition q_step (pc : pcfg) (st : pst) (m : wmsg) : pst :=
 Definition spec_state (pc : pcfg) (h : list wmsg) : pst := fold_left (q_step pc) h (q_init pc).
 Definition spec_cache (pc : pcfg) (h : list wmsg) (p : N) : option N := q_val (spec_state pc h) p.
 
-(* the cache is ready once the snapshot has been received *)
-Definition nth_reply (k : N) (h : list wmsg) : option payload :=
-  nth_error (flat_map (fun m => match m with WRep p => [p] | WSig _ => [] end) h) (N.to_nat (k - 1)).
+(* the cache is ready once the snapshot has been received; it has failed if the reply was something else *)
 Definition spec_ready (pc : pcfg) (h : list wmsg) : option bool :=
-  match nth_reply (GETALL (p_dest pc)) h with
-  | Some (PSnap _) => Some true
-  | Some _ => Some false
-  | None => None
+  let Q := spec_state pc h in
+  if q_ok Q then Some true
+  else if GETALL (p_dest pc) <=? sp_rep (q_o Q) then Some false else None.
+
+(* ---------------------------------------------------------------- vocabulary of the theorems *)
+(* the caching task has nothing left to do: it has failed, or keep_updated finds its stream empty *)
+Definition caught_up (x : cworld) : Prop :=
+  match c_stage x with
+  | SFailed => True
+  | SKeep => match w_ph (cw x) with PhReady st => fst (ssp st None) = RPending | _ => False end
+  | _ => False
   end.
+
+(* what the property stream of p reported last (c_seen is latest first) *)
+Definition last_seen (l : list (N * option N)) (p : N) : option N :=
+  match find (fun e => fst e =? p) l with Some e => snd e | None => None end.
+
+(* the messages read so far *)
+Definition received (x : cworld) (h : list wmsg) : list wmsg := firstn (N.to_nat (w_seq (cw x))) h.
